@@ -8,6 +8,7 @@ from fdlstatic import cfg as cfg_lib
 from fdlstatic.ctx import Ctx, kwarg
 from fdlstatic.keykind import KeyKind, _is_keyed_map
 from fdlstatic.model import AnalysisError, FuncInfo, unparse, walk_function, walk_stmts
+from fdlstatic import roles
 from fdlstatic.report import RuleSet
 from fdlstatic.rules import c14, ownrule
 from fdlstatic.rules.sigrules import KINDS, kinds_on_branch
@@ -445,10 +446,23 @@ def run(ctx: Ctx, rs: RuleSet, tier: str):
            ctx.loc(f, f.node))
   # clear_argument_history
   f = ctx.func(f'{S}.experimental.serialization.clear_argument_history.traverse')
-  src = unparse(f.node)
-  ok = ('flattened_map_children(value)' in src and
-        '.metadata.without_history()' in src and
-        'unflatten(sub_results.values' in src.replace('\n', ''))
+  vp = f.params[0]
+  sub = roles.assigned_from(f, lambda e: isinstance(e, ast.Call) and isinstance(
+      e.func, ast.Attribute) and e.func.attr == 'flattened_map_children' and
+                            [unparse(a) for a in e.args] == [vp])
+  meta = roles.assigned_from(f, lambda e: isinstance(e, ast.Call) and isinstance(
+      e.func, ast.Attribute) and e.func.attr == 'without_history' and
+                             isinstance(e.func.value, ast.Attribute) and
+                             e.func.value.attr == 'metadata' and
+                             unparse(e.func.value.value) in sub)
+  ok = any(isinstance(r, ast.Return) and isinstance(r.value, ast.Call) and
+           isinstance(r.value.func, ast.Attribute) and
+           r.value.func.attr == 'unflatten' and len(r.value.args) == 2 and
+           isinstance(r.value.args[0], ast.Attribute) and
+           r.value.args[0].attr == 'values' and
+           unparse(r.value.args[0].value) in sub and
+           unparse(r.value.args[1]) in meta
+           for r in walk_function(f.node))
   rs.check(ok, rule, f.qualname,
            'Buildables are rebuilt from the same (traversed) values with '
            'metadata minus history', ctx.loc(f, f.node), nontrivial=False)
